@@ -87,6 +87,30 @@ def r1_descriptor(chk):
                    f"the bound job's `{attr}` does not consult the driver instance (obj): per-instance settings are ignored")
 
 
+    # The chain consults the driver *class* before the driver *instance* (`... or getattr(objtype, X) or getattr(obj, X)`), so a
+    # truthy class-level default of X on a driver class shadows what every instance was constructed with.
+    drv = prog.cls("molli.pipeline.driver:DriverBase")
+    for attr in ("executable", "nprocs", "memory"):
+        st = [s for s in walk_no_nested(g.node) if isinstance(s, ast.Assign) and any(p.endswith("." + attr) for p in stored_paths(s))]
+        if not st or not isinstance(st[0].value, ast.BoolOp) or not isinstance(st[0].value.op, ast.Or):
+            continue
+        order = [("class" if norm(v).startswith("getattr(objtype") else "instance" if norm(v).startswith("getattr(obj,") else None) for v in st[0].value.values]
+        order = [o for o in order if o]
+        if order[:1] != ["class"]:
+            continue
+        shadow = []
+        for ci in [drv] + prog.subclasses(drv):
+            mem = ci.members.get(attr)
+            if mem is not None and mem.attr is not None:
+                v = getattr(mem.attr, "value", None)
+                if v is not None and not (isinstance(v, ast.Constant) and not v.value):
+                    shadow.append((ci, mem.attr, v))
+        chk.decide(not shadow, "C17.R1", f"{g.key}:class-default-does-not-shadow-instance:{attr}", g.where(st[0]),
+                   f"no driver class defines a truthy class-level `{attr}` (the class is consulted before the instance)",
+                   (f"{shadow[0][0].name}.{attr} = {norm(shadow[0][2])} at class level: Job.__get__ consults the class before the instance, so every driver built with another "
+                    f"`{attr}` still prepares its jobs with {norm(shadow[0][2])}") if shadow else "")
+
+
 def r2_runner(chk, rl):
     src = rl.node
     asg = assignments(src)
